@@ -1,2 +1,3 @@
 //! Shared code of the correspondence harness; one binary per property in src/bin/.
+pub mod rv;
 pub mod util;
